@@ -22,6 +22,7 @@ type GenOpts struct {
 	ManyRoots  bool    // bias to many parameterless providers (C05)
 	NoSets     bool
 	ForceAsyncRoots bool // parameterless function providers are always Async
+	Wire     bool // google/wire configuration family (single-result providers, everything needed, no Async)
 	Fanout   int // max parameters of a function provider (default 3)
 	ReuseP   int // percent chance that a parameter reuses an already supplied type (diamonds)
 }
@@ -195,6 +196,10 @@ func (g *gen) need(depth int) int {
 		return g.structField(depth)
 	case k < 70 && g.budget > 0:
 		return g.boundIface(depth)
+	case k < 80 && g.o.Wire && g.budget > 0 && depth < 4:
+		return g.assemble(depth)
+	case k < 85 && g.o.Wire:
+		return g.ifaceValue()
 	default:
 		if g.budget <= 0 {
 			if len(g.done) > 0 {
@@ -245,6 +250,9 @@ func (g *gen) valueProv() int {
 		t = g.addType(&Type{Kind: KStruct, Name: g.typeName(), Base: -1})
 		v := uint64(g.r.Intn(100000) + 1)
 		p.ValExpr = fmt.Sprintf("mk%d(%d)", t, v)
+		if g.o.Wire {
+			p.ValExpr = fmt.Sprintf("%s{v: probe.V{H: %d}}", g.s.Types[t].Name, v)
+		}
 		p.ValH = v
 	case 3:
 		// package-level constant of a named type
@@ -316,12 +324,12 @@ func (g *gen) structField(depth int) int {
 		g.s.Types[st].Fields = append(g.s.Types[st].Fields, Field{Name: name, T: ft, Embedded: emb})
 	}
 	use := st
-	if g.r.Intn(2) == 0 {
+	if g.r.Intn(2) == 0 || (g.o.Wire && g.r.Intn(5) != 0) {
 		use = g.addType(&Type{Kind: KPtr, Base: st})
 	}
 	g.newProv(depth+1, use)
 	sp := &Prov{Kind: PStruct, Results: []int{use}}
-	if g.r.Intn(6) == 0 {
+	if g.r.Intn(6) == 0 && !g.o.Wire {
 		sp.Async = true // Async(Struct[T]()) has no effect on semantics
 	}
 	g.addProv(sp)
@@ -331,6 +339,67 @@ func (g *gen) structField(depth int) int {
 		g.done = append(g.done, f.T)
 	}
 	return fts[g.r.Intn(len(fts))]
+}
+
+// assemble (wire only) creates wire.Struct(new(S), ...): S is built from its
+// fields, which are themselves needed types.
+func (g *gen) assemble(depth int) int {
+	st := g.addType(&Type{Kind: KStruct, Name: g.typeName(), Base: -1, Pure: true})
+	p := &Prov{Kind: PAssemble}
+	g.addProv(p)
+	g.budget--
+	nf := 1 + g.r.Intn(3)
+	seen := map[int]bool{}
+	for i := 0; i < nf; i++ {
+		ft := g.need(depth + 1)
+		if seen[ft] || g.s.Types[ft].Kind == KCtx {
+			continue
+		}
+		seen[ft] = true
+		name := fmt.Sprintf("A%d%s", i, strings.Title(g.s.Types[st].Name))
+		g.s.Types[st].Fields = append(g.s.Types[st].Fields, Field{Name: name, T: ft})
+	}
+	if len(g.s.Types[st].Fields) == 0 {
+		ft := g.valueProvNamed()
+		g.s.Types[st].Fields = append(g.s.Types[st].Fields, Field{Name: "A0" + g.s.Types[st].Name, T: ft})
+	}
+	listed := append([]Field{}, g.s.Types[st].Fields...)
+	for _, f := range listed {
+		p.Params = append(p.Params, f.T)
+		p.AsmFields = append(p.AsmFields, f.Name)
+	}
+	switch g.r.Intn(4) {
+	case 0:
+		p.AsmFields = []string{"*"}
+	case 1:
+		// "*" with a field excluded by the wire:"-" tag
+		xt := g.addType(&Type{Kind: KNamedInt, Name: g.typeName(), Base: -1})
+		g.s.Types[st].Fields = append(g.s.Types[st].Fields, Field{Name: "Skipped" + g.s.Types[st].Name, T: xt, Tag: `wire:"-"`})
+		p.AsmFields = []string{"*"}
+		g.feature("wire-struct-star-with-excluded-field")
+	case 2:
+		// explicit list, one more field that is not listed (stays zero)
+		xt := g.addType(&Type{Kind: KNamedInt, Name: g.typeName(), Base: -1})
+		g.s.Types[st].Fields = append(g.s.Types[st].Fields, Field{Name: "Unlisted" + g.s.Types[st].Name, T: xt})
+	}
+	use := st
+	if g.r.Intn(5) != 0 {
+		use = g.addType(&Type{Kind: KPtr, Base: st})
+	}
+	p.Results = []int{use}
+	g.done = append(g.done, use)
+	return use
+}
+
+// ifaceValue (wire only) creates wire.InterfaceValue(new(I), S{...}).
+func (g *gen) ifaceValue() int {
+	it := g.addType(&Type{Kind: KIface, Name: g.typeName(), Base: -1})
+	st := g.addType(&Type{Kind: KStruct, Name: g.typeName(), Base: -1, Impl: []int{it}})
+	v := uint64(g.r.Intn(100000) + 1)
+	p := &Prov{Kind: PValue, ValExpr: fmt.Sprintf("%s{v: probe.V{H: %d}}", g.s.Types[st].Name, v), ValH: v, Results: []int{st}, Binds: []int{it}, IfaceVal: true}
+	g.addProv(p)
+	g.done = append(g.done, it)
+	return it
 }
 
 // boundIface creates a provider of a struct implementing a fresh interface,
@@ -346,6 +415,22 @@ func (g *gen) boundIface(depth int) int {
 	p := g.newProv(depth+1, use)
 	g.s.Provs[p].Binds = []int{it}
 	g.s.Provs[p].BindOut = g.r.Intn(2) == 0
+	if g.o.Wire {
+		// constructor naming: conventional New<Type>; or another name with an
+		// unrelated function called New<Type> lying around; or another name only
+		conv := "New" + g.s.Types[st].Name
+		switch g.r.Intn(3) {
+		case 0:
+			g.s.Provs[p].Fn = conv
+			g.feature("bind-conventional-constructor")
+		case 1:
+			g.s.Provs[p].Fn = fmt.Sprintf("Make%sP%d", g.s.Types[st].Name, p)
+			g.addProv(&Prov{Kind: PFunc, Fn: conv, Results: []int{use}, Decoy: true})
+			g.feature("bind-unconventional-constructor-with-decoy")
+		default:
+			g.feature("bind-unconventional-constructor")
+		}
+	}
 	if g.r.Intn(5) == 0 {
 		// stacked bind: a second interface on the same implementation
 		it2 := g.addType(&Type{Kind: KIface, Name: g.typeName(), Base: -1})
@@ -386,8 +471,20 @@ func (g *gen) newProv(depth int, result int) int {
 	for i := 0; i < np; i++ {
 		params = append(params, g.need(depth))
 	}
-	if len(params) > 0 && g.r.Intn(10) == 0 {
+	if len(params) > 0 && g.r.Intn(10) == 0 && !g.o.Wire {
 		params = append(params, params[g.r.Intn(len(params))]) // duplicate parameter type
+	}
+	if g.o.Wire {
+		// wire rejects providers with two parameters of one type
+		seenT := map[int]bool{}
+		var uniq []int
+		for _, t := range params {
+			if !seenT[t] {
+				seenT[t] = true
+				uniq = append(uniq, t)
+			}
+		}
+		params = uniq
 	}
 	if g.hasCtx == 0 && g.r.Float64() < g.o.CtxP {
 		pos := g.r.Intn(len(params) + 1)
@@ -412,7 +509,7 @@ func (g *gen) newProv(depth int, result int) int {
 	} else {
 		p.Results = []int{g.freshType(false)}
 	}
-	if g.r.Intn(6) == 0 {
+	if g.r.Intn(6) == 0 && !g.o.Wire {
 		p.Results = append(p.Results, g.freshType(false))
 	}
 	p.Fn = fmt.Sprintf("New%sP%d", typeBaseName(g.s, p.Results[0]), id)
@@ -427,6 +524,9 @@ func (g *gen) newProv(depth int, result int) int {
 	}
 	p.Err = g.r.Float64() < g.o.ErrP
 	p.Lit = g.r.Intn(12) == 0
+	if g.o.Wire {
+		p.Lit, p.Async = false, false
+	}
 	if g.o.Static && len(p.Params) > 0 && g.r.Intn(8) == 0 {
 		last := g.s.Types[p.Params[len(p.Params)-1]]
 		if last.Kind == KSlice || (last.Kind == KRaw && strings.HasPrefix(last.Raw, "[]")) {
@@ -497,7 +597,7 @@ func Generate(seed int64, name string, o GenOpts) *Spec {
 	root := g.newProv(0, -1)
 	ret := s.Provs[root].Results[0]
 	// a few unneeded providers (must never run)
-	for i := 0; i < r.Intn(3); i++ {
+	for i := 0; i < r.Intn(3) && !o.Wire; i++ {
 		if g.budget <= 0 {
 			break
 		}
@@ -507,6 +607,9 @@ func Generate(seed int64, name string, o GenOpts) *Spec {
 	// build item list: every provider once, shuffled, grouped into sets
 	var items []Item
 	for _, p := range s.Provs {
+		if p.Decoy {
+			continue
+		}
 		items = append(items, Item{Prov: p.ID})
 	}
 	r.Shuffle(len(items), func(i, j int) { items[i], items[j] = items[j], items[i] })
@@ -534,7 +637,7 @@ func Generate(seed int64, name string, o GenOpts) *Spec {
 		}
 	}
 	for _, t := range ref.Args {
-		if s.Types[t].Kind != KCtx {
+		if s.Types[t].Kind != KCtx && !o.Wire {
 			cands = append(cands, t) // requested type with no supplier: identity injector
 		}
 	}
@@ -545,7 +648,7 @@ func Generate(seed int64, name string, o GenOpts) *Spec {
 	for j := 1; j < o.MultiInj && len(cands) > 0; j++ {
 		t := cands[r.Intn(len(cands))]
 		its := items
-		if r.Intn(2) == 0 {
+		if r.Intn(2) == 0 && !o.Wire {
 			its = g.subsetItems(items)
 		}
 		nm := fmt.Sprintf("Build%s%d", typeBaseName(s, t), j)
